@@ -224,3 +224,28 @@ package log
 //@   loop 1 invariant i == i0 && l.first == old(l.first) && LogLast(l) <= old(LogLast(l)) && (LogLast(l) < old(LogLast(l)) ==> i0 <= LogLast(l) + 1)
 //@   loop 1 invariant forall(x, old(l.gin[x]) && !l.gin[x] ==> !fs[old(SName(x))]) && forall(p, fs[p] ==> old(fs[p])) && forall(x, old(l.gin[x]) ==> SName(x) == old(SName(x)) && SP(x) == old(SP(x)))
 //@ pure SegSame2(x *segment) bool = x.n == old(x.n) && x.prevIndex == old(x.prevIndex) && x.size == old(x.size) && x.file == old(x.file)
+
+// ---------------------------------------------------------------------------
+// creating a segment file (C14, C10): a crash must never leave an INCOMPLETE file under the final name
+// <k>.log (openSegment maps whatever is there; an empty file cannot be mapped and log.Open would fail on
+// every restart). fdone[p] (ghost, see the snapshot contracts): the file at p is complete and closed.
+// T-fs (trusted): Truncate / WriteAt / Sync on an open handle do not change which names exist.
+//@ func (*os.File).Truncate
+//@   trusted
+//@ func (*os.File).WriteAt
+//@   trusted
+//@ func (*os.File).Sync
+//@   trusted
+
+// T-fs (trusted view for this caller): rename is atomic and carries the file (its completeness) to the new name
+//@ view os.Rename at log.createSegment
+//@   modifies fs, fdone, fsize
+//@   ensures result0 == nil ==> old(fs[oldpath]) && fs[newpath] && !fs[oldpath] && fdone[newpath] == old(fdone[oldpath]) && forall(p, p != newpath && p != oldpath ==> fs[p] == old(fs[p]) && fdone[p] == old(fdone[p]))
+//@   ensures result0 != nil ==> fs == old(fs) && fdone == old(fdone)
+
+//@ func createSegment
+//@   props C10 C13
+//@   requires !fs[name]
+//@   modifies fs, fdone, fsize
+//@   ensures [C14.create-complete] result0 == nil ==> fs[name] && fdone[name]
+//@   crash_inv [C14+C10.create-atomic] !fs[name] || fdone[name]
